@@ -193,6 +193,7 @@ pub fn enc_nested(out: &mut Out) {
 /// C08: unbuffered run and runs with every (sampled) subset of master ids buffered
 pub fn buf(out: &mut Out, rng: &mut Rng, count: usize) {
     let mut n = 0usize;
+    witness_buffered_eof(out, &mut n);
     for i in 0..count {
         let s = pick_schema(rng, i);
         let doc = small_doc(rng, &s, 22, i % 3 == 0);
@@ -250,6 +251,7 @@ pub fn cut(out: &mut Out, rng: &mut Rng, count: usize, all_cuts_below: usize) {
 /// C04: reference run from a "slice" (everything delivered at once) against read schedules, capacities, pauses
 pub fn sched(out: &mut Out, rng: &mut Rng, count: usize, exhaustive_below: usize, caps: &[Option<usize>]) {
     let mut n = 0usize;
+    witness_buffered_eof(out, &mut n);
     for i in 0..count {
         let s = pick_schema(rng, i);
         let doc = small_doc(rng, &s, if i % 6 == 0 { 40 } else { 8 }, i % 3 == 0);
@@ -277,7 +279,7 @@ pub fn sched(out: &mut Out, rng: &mut Rng, count: usize, exhaustive_below: usize
             let mut c = base.clone();
             c.cap = *rng.pick(caps);
             let mut sc = sc.clone();
-            if pauses && !bounds.is_empty() && base.buffer.is_empty() {
+            if pauses && !bounds.is_empty() && (base.buffer.is_empty() || k % 3 == 0) {
                 // temporary end-of-file exactly at (a subset of) tag boundaries: split chunks there and answer Ok(0) once
                 let mut out_s = Vec::new(); let mut pos = 0usize;
                 for st in sc { if let Step::N(nb) = st { let mut left = nb; while left > 0 { let nextb = bounds.iter().copied().find(|b| *b > pos && *b < pos + left); match nextb { Some(b) => { out_s.push(Step::N(b - pos)); left -= b - pos; pos = b; if rng.chance(1, 2) { out_s.push(Step::Zero); } } None => { out_s.push(Step::N(left)); pos += left; left = 0; } } }
@@ -465,4 +467,45 @@ pub fn suffixes(out: &mut Out, rng: &mut Rng, count: usize) {
         for _ in 0..3 { let t = rng.pick(&lay); run_reader::<DynTag>(out, &format!("from:{}", t.off), &bytes[t.off..], &ReaderCfg::strict(), &[], &until_end()); }
         out.ev(json!({"ev":"end"}));
     }
+}
+
+/// replay of behaviours generated by TLC from the bounded model MC_Reader (schema S3)
+pub fn replay(out: &mut Out, inp_path: &str) {
+    let s = gen::s3();
+    let mut n = 0usize;
+    let text = std::fs::read_to_string(inp_path).expect("replay input");
+    for line in text.lines() {
+        let v: serde_json::Value = serde_json::from_str(line).expect("replay line");
+        let input: Vec<u8> = v["input"].as_array().unwrap().iter().map(|x| x.as_u64().unwrap() as u8).collect();
+        let mut c = ReaderCfg::strict();
+        c.allow_id = v["allowId"].as_bool().unwrap(); c.allow_hier = v["allowHier"].as_bool().unwrap(); c.allow_size = v["allowSize"].as_bool().unwrap();
+        c.eof_close = v["eofClose"].as_bool().unwrap();
+        c.max = MaxCfg::Some(v["max"].as_u64().unwrap() as usize);
+        c.buffer = v["buffered"].as_array().unwrap().iter().map(|idb| idb.as_array().unwrap().iter().fold(0u64, |a, x| (a << 8) | x.as_u64().unwrap())).collect();
+        begin(out, &mut n, &s, "single", json!({}));
+        run_reader::<DynTag>(out, "replay", &input, &c, &[], &until_end());
+        out.ev(json!({"ev":"end"}));
+    }
+}
+
+/// deterministic witnesses of the listed known findings (so that each check reports them on every run)
+pub fn witness_buffered_eof(out: &mut Out, n: &mut usize) {
+    let s = gen::s3();
+    // A { B { C { U=1 } Q=2 } P=3 }
+    let doc = vec![Node::master(0x81, vec![Node::master(0x82, vec![Node::master(0x83, vec![Node::leaf(0x84, gen::Val::U(1))]), Node::leaf(0x8a, gen::Val::U(2))]), Node::leaf(0x89, gen::Val::U(3))])];
+    let bytes = gen::encode_doc(&doc);
+    let lay = gen::layout(&doc);
+    let q_off = lay.iter().find(|t| t.id == 0x8a).unwrap().off;   // a tag boundary inside buffered B
+    let mut c = ReaderCfg::strict(); c.eof_close = false; c.buffer = vec![0x82];
+    // C04: pause (temporary Ok(0)) at that boundary
+    begin(out, n, &s, "sched", json!({"witness":"DEV_BUFFERED_EOF_NOCLOSE"}));
+    run_reader::<DynTag>(out, "slice", &bytes, &c, &[], &until_end());
+    run_reader::<DynTag>(out, "sched:pause", &bytes, &c, &[Step::N(q_off), Step::Zero, Step::Zero, Step::Zero, Step::N(1000)], &Calls::UntilEnd { extra: 1, max_calls: 100 });
+    out.ev(json!({"ev":"end"}));
+    // C08: input ends at that boundary
+    let mut flat = c.clone(); flat.buffer = vec![];
+    begin(out, n, &s, "buf", json!({"witness":"DEV_BUFFERED_EOF_NOCLOSE"}));
+    run_reader::<DynTag>(out, "flat", &bytes[..q_off], &flat, &[], &until_end());
+    run_reader::<DynTag>(out, "buf:B", &bytes[..q_off], &c, &[], &until_end());
+    out.ev(json!({"ev":"end"}));
 }
